@@ -33,3 +33,15 @@ Theorem C18_malformed_commits_rejected :
   snd (aprocess m {| ao_kind := KCommits; ao_round := r; ao_wellformed := false |}) = ARejected.
 Proof. exact malformed_commits_rejected. Qed.
 Print Assumptions C18_rejected_then_rest.
+
+(* reinitialisation messages (not signature-checked): undecodable, naming no round (blank
+   identifier - refused since fix 15fca17 before the operation pool is touched), or naming a round
+   the node already holds: the node's state is exactly what it was *)
+Theorem C18_unusable_reinit_writes_nothing :
+  forall now st r,
+  (match r with None => True | Some rd => rd_id rd = 0%N \/ tget' (ns_rounds st) (rd_id rd) <> None end) ->
+  match reinit_dkg now {| h_st := st; h_tr := [] |} r with
+  | ROk h _ | RErr h => h = {| h_st := st; h_tr := [] |}
+  | RPanic => False
+  end.
+Proof. exact unusable_reinit_writes_nothing. Qed.
